@@ -625,6 +625,26 @@ def extra(ctx, prop):
             run_oracles(ctx, ex, "engine.large_final.nonascii", only_prop=prop)
             ctx.case((json.dumps(script, sort_keys=True), json.dumps(ex["plans"], sort_keys=True)) if ex["finished"] else None)
             ctx.count("large_final.nonascii")
+    if prop in ("C04", "C01"):
+        # recorded results that can no longer be deserialized in a later invocation (format change between deploys):
+        # the execution may fail, but a completed step - at-most-once in particular - is never run again
+        for i in range(ctx.scale(30, 600)):
+            amo = ctx.rng.random() < 0.7
+            script = [{"op": "step", "body": [{"ok": ctx.rng.choice(["s", "i5", "d"])}], "amo": amo, "fragile": True,
+                       "retry": {"max": ctx.rng.choice([1, 3]), "delays": [1], "noretry": []}, "catch": ctx.rng.random() < 0.5},
+                      {"op": "wait", "secs": 1},
+                      {"op": "step", "body": [{"ok": "t"}], "amo": False, "retry": {"max": 1, "delays": [], "noretry": []}, "catch": True}]
+            if ctx.rng.random() < 0.4:
+                script = [{"op": "child", "body": script[:1], "limit": 200, "summary": "", "catch": ctx.rng.random() < 0.5}] + script[1:]
+            ex = E.run_execution(script, ctx.rng.randrange(1 << 30), crash_p=0.0, fault_p=0.0)
+            # only the re-execution oracles apply: what is delivered here is the deserialization failure, by construction
+            case_ = {"script": ex["script"], "plans": ex["plans"], "events": ex["events"], "seed": ex["seed"], "limits": ex["limits"]}
+            for f_ in (o_no_reentry, o_amo):
+                if f_.prop == prop:
+                    f_(ex, lambda name, detail: ctx.violate(name, case_, detail, "engine.unreadable_record", kind="history")
+                       if name != "C01.delivered_differs_from_record" else None)
+            ctx.case((json.dumps(script, sort_keys=True), json.dumps(ex["plans"], sort_keys=True)) if len(ex["invs"]) >= 2 else None)
+            ctx.count("step.unreadable_record")
     if prop == "C13":
         # a poll whose returned state cannot be serialized fails the call durably (oracle-only: not in the model)
         for i in range(ctx.scale(30, 600)):
